@@ -9,6 +9,12 @@ Server configuration = a list of pre-login stages followed by a final state:
    'passphrase'  asks for the key passphrase, same discipline
    'denied'      prints "Permission denied (publickey)." and closes
    'termtype'    asks "Terminal type?" and waits for a line
+   'notice'      prints a message of the day that mentions "password:" (what login()'s password_regex
+                 option exists for) and contains no prompt character
+   'wait'        prints nothing until the client has waited a (virtual) second: what follows arrives
+                 in a later read than what went before
+ A server may also be a jump host: with hop=(stages, final, password) set, the line "ssh ..." typed at
+ its shell starts a second dialogue (the inner host, with its own texts) - login(spawn_local_ssh=False).
  final: 'shell:<flavour>' (sh | csh | zsh), 'silent' (nothing more, connection stays open),
         'closed' ("Connection closed by remote host" + end of stream), 'exit' (end of stream)
 Everything the server prints and every line the client sends is recorded, in order, as tokens.
@@ -28,8 +34,16 @@ TEXT = {
     'termtype': "Terminal type? ",
     'closed': "Connection closed by remote host\r\n",
     'yesno': "Please type 'yes' or 'no': ",
+    'notice': "Notice: change your password: it expires in 3 days\r\n",
 }
 ORIG_PROMPT = {'sh': 'user@h:~$ ', 'csh': 'h% # ', 'zsh': 'h$ '}
+# the inner host of a two-hop login: other user, other prompts
+INNER_TEXT = {'password': "me@inner's password: ", 'banner': "Welcome to inner, rate 3$/h, ticket #7\r\n"}
+INNER_PROMPT = {'sh': 'me@inner:~$ ', 'csh': 'inner% # ', 'zsh': 'inner$ '}
+INNER_ORIGINAL_PROMPT = r'(?:me@inner:~\$ |inner% # |inner\$ )$'
+INNER_PASSWORD_REGEX = r"(?i)me@inner's password:"
+OUTER_PASSWORD_REGEX = r"(?i)user@h's password:|passphrase for key"
+OUTER_ORIGINAL_PROMPT = r'(?:user@h:~\$ |h% # |h\$ )$'
 UNIQUE = '[PEXPECT]$ '
 
 
@@ -45,20 +59,34 @@ class FakeServer(object):
         self.state = None
         self.prompt = None
         self.flavour = None
+        self.texts = dict(TEXT)
+        self.orig_prompts = dict(ORIG_PROMPT)
+        self.hop = None             # (stages, final, password) of the inner host, if this is a jump host
+        self.hops = 0
         self.advance()
 
     def emit(self, token, text=None):
-        self.out += TEXT[token] if text is None else text
+        self.out += self.texts[token] if text is None else text
         self.log.append(('srv', token))
+
+    def waited(self):
+        """the client has waited a second while the server was in a 'wait' stage"""
+        if self.state == 'wait':
+            self.advance()
+            return True
+        return False
 
     def advance(self):
         """enter the next stage and print what it prints"""
         while True:
             if self.stages:
                 st = self.stages.pop(0)
-                if st == 'banner':
-                    self.emit('banner')
+                if st in ('banner', 'notice'):
+                    self.emit(st)
                     continue
+                if st == 'wait':
+                    self.state = 'wait'
+                    return
                 if st == 'denied':
                     self.emit('denied_final')
                     self.finish('closed')
@@ -73,7 +101,7 @@ class FakeServer(object):
         if final.startswith('shell:'):
             self.flavour = final.split(':')[1]
             self.state = 'shell'
-            self.prompt = ORIG_PROMPT[self.flavour]
+            self.prompt = self.orig_prompts[self.flavour]
             self.emit('prompt', self.prompt)
         elif final == 'silent':
             self.state = 'silent'
@@ -146,6 +174,18 @@ class FakeServer(object):
                 pass
             elif kind == 'ps1_zsh' and fl == 'zsh':
                 self.prompt = UNIQUE
+            elif kind == 'line' and line.startswith('ssh ') and self.hop is not None:
+                stages, final, password = self.hop
+                self.hop = None
+                self.hops += 1
+                self.stages, self.final, self.password = list(stages), final, password
+                self.texts.update(INNER_TEXT)
+                self.orig_prompts = dict(INNER_PROMPT)
+                self.attempts = 0
+                self.flavour = None
+                self.log.append(('hop',))
+                self.advance()
+                return
             elif kind == 'line':
                 m = re.match(r'^echo (.*)$', line)
                 if m:
@@ -211,6 +251,10 @@ class FakePxssh(pxssh.pxssh):
         if s.eof:
             self.flag_eof = True
             raise EOF('End Of File (EOF). Fake ssh.')
+        if s.state == 'wait' and (timeout is None or timeout >= 1):
+            self.clock.advance(1)
+            s.waited()
+            return self.read_nonblocking(size, None if timeout is None else timeout - 1)
         if timeout is None:
             raise RuntimeError('fake ssh: blocking read on a silent server')
         self.clock.advance(max(timeout, 0))
